@@ -1447,8 +1447,12 @@ class DMLQuery(object):
                 if not val_mgr.changed and not isinstance(col, columns.Counter):
                     continue
 
-                static_changed_only = static_changed_only and col.static
+                assignments_before = len(statement.assignments)
                 statement.add_update(col, val, previous=val_mgr.previous_value)
+                if len(statement.assignments) > assignments_before:
+                    # a map that only lost keys adds nothing to the UPDATE (the keys are removed by the
+                    # DELETE below), so it must not make the UPDATE address the row instead of the partition
+                    static_changed_only = static_changed_only and col.static
                 updated_columns.add(col.db_field_name)
 
         if statement.assignments:
